@@ -9,6 +9,7 @@ from .. import gen as G
 from . import C05
 
 LEVEL = "proof"
+READY = True
 CLAIM = {
     "text": "Lean theorems over ALL operation lists: building a patch from its document form yields, operation by operation, the operation the matching builder call creates "
             "(load_eq_build: in particular `addap` builds an add-or-append operation), asdicts(build ds) = ds for well-formed operation dicts and build(asdicts p) = p "
